@@ -327,3 +327,36 @@ def c09(tier):
               bound="all origins of res %d, |i|,|j| <= 64" % r)
         js += with_witness(j, tier="thorough") if r == 1 else [j]
     return js
+
+
+# ------------------------------------------------------------------------------------------- C11
+@prop("C11",
+      functions=["cellToVertex", "cellToVertexes", "isValidVertex", "directionForVertexNum", "vertexNumForDirection", "vertexRotations", "h3NeighborRotations", "directionForNeighbor", "_h3ToFaceIjk", "_baseCellToCCWrot60"],
+      bounds={"quick": "glue (cellToVertex, isValidVertex, cellToVertexes): every 64-bit cell word and every component value within the contracts; centre-child minimality: all valid cells of res 1-8,15; vertex/direction bijection: res 0-2",
+              "thorough": "centre-child minimality all resolutions; bijection res 0-3; triangle (corner neighbours adjacent) res 0-2; end to end cellToVertex + isValidVertex res 0-1"},
+      outside="the global 2N-4 count; vertexToLatLng agreement with cellToBoundary (trig); lattice identity of the owner's corner (C08)",
+      assumptions=["glue contracts: neighbour step total/distinct (C05.H1/H2), back-direction witness (C05.H3), bijection (VNUMBIJ), centre-child minimality (CENTREMIN), triangle (TRIANGLE, res 0-2 only)"],
+      stubs=["GLUE_C2V: isPentagon, directionForVertexNum, vertexNumForDirection, h3NeighborRotations, directionForNeighbor", "GLUE_VALID / GLUE_VERTEXES: cellToVertex (+isPentagon)"])
+def c11(tier):
+    js = []
+    js += with_witness(J("glue_cellToVertex", "C11_glue.c", ["-DGLUE_C2V"], unwind=8, est=10, witness_expect=["left owner", "right owner"],
+                         stubs={"h3Index": ["isPentagon"], "vertex": ["directionForVertexNum", "vertexNumForDirection"], "algos": ["h3NeighborRotations", "directionForNeighbor"]},
+                         bound="any cell word, any component values"))
+    js += with_witness(J("glue_isValidVertex", "C11_glue.c", ["-DGLUE_VALID"], unwind=17, est=5, stubs={"vertex": ["cellToVertex"]}, bound="all 2^64 words x any canonical index / error"))
+    js += with_witness(J("glue_cellToVertexes", "C11_glue.c", ["-DGLUE_VERTEXES"], unwind=8, est=5, stubs={"vertex": ["cellToVertex"], "h3Index": ["isPentagon"]}, bound="any cell word, any per-vertex results"))
+    for r in range(1, 16):
+        t = "quick" if r <= 8 or r == 15 else "thorough"
+        j = J("centremin_r%d" % r, "C11_comp.c", ["-DCENTREMIN", "-DRES=%d" % r], unwind=r + 2, est=10 + 5 * r, tier=t, bound="all centre children of res %d x directions" % r)
+        js += with_witness(j, tier=t) if r == 2 else [j]
+    js += up7_lemma(10)
+    for r in (0, 1, 2, 3):
+        t = "quick" if r <= 2 else "thorough"
+        j = J("vnumbij_r%d" % r, "C11_comp.c", ["-DVNUMBIJ", "-DRES=%d" % r, "-DUPB=(1<<10)"], unwind=r + 2, unit_defs=UP7_DEFS, est=60 + 60 * r, mem="M", tier=t, timeout=2400, bound="all valid cells of res %d x all int vertex numbers and directions" % r)
+        js += with_witness(j, tier=t) if r == 1 else [j]
+    for r in (0, 1, 2):
+        j = J("triangle_r%d" % r, "C11_comp.c", ["-DTRIANGLE", "-DRES=%d" % r, "-DUPB=(1<<10)"], unwind=r + 2, unit_defs=UP7_DEFS, est=300 + 300 * r, mem="L", tier="thorough", timeout=3400, core=False, bound="all valid cells of res %d x corners" % r)
+        js += with_witness(j, tier="thorough") if r == 0 else [j]
+    for r in (0, 1):
+        j = J("e2e_r%d" % r, "C11_comp.c", ["-DE2E", "-DRES=%d" % r, "-DUPB=(1<<10)"], unwind=r + 2, unit_defs=UP7_DEFS, est=600 + 600 * r, mem="L", tier="thorough", timeout=3400, core=False, bound="all valid cells of res %d x vertex numbers" % r)
+        js += with_witness(j, tier="thorough") if r == 0 else [j]
+    return js
